@@ -123,6 +123,7 @@ func udpRun(w *vt.Writer, r *rand.Rand, pool []*entities.InfoElement, dur time.D
 		}
 	}()
 	evals := 0
+	var closing atomic.Bool
 	stopApp := make(chan struct{})
 	appDone := make(chan struct{})
 	seedApp := r.Int63()
@@ -172,6 +173,11 @@ func udpRun(w *vt.Writer, r *rand.Rand, pool []*entities.InfoElement, dur time.D
 			} else {
 				tid := tids[rr.Intn(len(tids))]
 				d = sets.Data(rr, tid, tmpls[tid], 1+rr.Intn(4), 40, 4000)
+				if closing.Load() {
+					// around Close the application offers large sets (hundreds of records) without pausing: a SendSet
+					// is then almost certainly in progress when Close runs
+					d = sets.Data(rr, tid, tmpls[tid], 600+rr.Intn(900), 6, 60000)
+				}
 			}
 			h := fnv.New64a()
 			fmt.Fprint(h, d.Stype, d.HdrID, len(d.Recs))
@@ -185,6 +191,9 @@ func udpRun(w *vt.Writer, r *rand.Rand, pool []*entities.InfoElement, dur time.D
 			m0 := ms()
 			n, err := ep.SendSet(set)
 			w.Emit(vt.Ev{"e": "SendEnd", "ret": n, "err": err != nil, "ms0": m0, "ms": ms()})
+			if closing.Load() {
+				continue
+			}
 			if manyTemplates && late != 0 {
 				if len(tids) >= 400 && late < 0 { // wait for the burst, react at once
 					select {
@@ -198,6 +207,8 @@ func udpRun(w *vt.Writer, r *rand.Rand, pool []*entities.InfoElement, dur time.D
 		}
 	}()
 	time.Sleep(dur + time.Duration(r.Intn(400))*time.Millisecond)
+	closing.Store(true)
+	time.Sleep(40 * time.Millisecond)
 	// concurrent, repeated Close from 1..4 goroutines
 	nc := 1 + r.Intn(4)
 	var wg sync.WaitGroup
